@@ -1,5 +1,7 @@
 """Mode statistics for t-preconditioned Crank-Nicolson MCMC."""
 
+from typing import Optional
+
 import numpy as np
 from tempest.student import fit_mvstud
 
@@ -120,6 +122,7 @@ class ModeStatistics:
         labels: np.ndarray,
         dof_fallback: float = DOF_FALLBACK,
         resample_factor: int = 4,
+        n_modes: Optional[int] = None,
     ) -> "ModeStatistics":
         """
         Fit Student-t distributions to weighted particles per cluster.
@@ -143,11 +146,17 @@ class ModeStatistics:
             Multiplier for resampling particles for robust fitting.
             Each cluster is resampled to `n_cluster * resample_factor` particles.
             Default is 4.
+        n_modes : int, optional
+            Number of cluster labels of the model that produced ``labels``. When given,
+            exactly ``n_modes`` modes are returned and mode ``k`` describes label ``k``
+            (labels that own fewer than ``n_dim + 1`` distinct particles fall back to
+            the statistics of all particles), so that modes can be indexed by label.
 
         Returns
         -------
         ModeStatistics
-            Fitted mode statistics with K modes where K = number of unique labels.
+            Fitted mode statistics with K modes where K = number of unique labels
+            (or ``n_modes`` if given).
 
         Notes
         -----
@@ -169,10 +178,16 @@ class ModeStatistics:
         covariances = []
         degrees_of_freedom = []
 
-        unique_labels = np.unique(labels)
+        unique_labels = np.unique(labels) if n_modes is None else np.arange(n_modes)
         for label in unique_labels:
             # Extract particles for this cluster
             idx_cluster = np.where(labels == label)[0]
+            if (
+                n_modes is not None
+                and len(np.unique(u[idx_cluster], axis=0)) <= u.shape[1]
+            ):
+                # Empty or degenerate cluster: use all particles for this mode
+                idx_cluster = np.arange(len(u))
             u_cluster = u[idx_cluster]
             weights_cluster = weights[idx_cluster]
             weights_cluster = weights_cluster / np.sum(weights_cluster)
